@@ -210,6 +210,18 @@ func runC11(c *Ctx) {
 	// ---- (2) EXT-FIELDS
 	c11ExtFields(c, pkImg, pkV1)
 
+	c11ImageFileCopies(c)
+	{
+		var dp []*packages.Package
+		for _, rel := range []string{pkgImage, pkgBufctl, pkgFetch, pkgFetchInt} {
+			if q := p.Pkg(rel); q != nil {
+				dp = append(dp, q)
+			}
+		}
+		c.Rule("R-DEFER", "deferred error joins assign the named result, never a local", 10)
+		ruleDefer(c, "R-DEFER", dp)
+	}
+
 	// ---- (3) EXT-NUMBER
 	c11ExtNumber(c, pkImg, pkV1)
 
@@ -1167,4 +1179,283 @@ func c11ExtTables(c *Ctx, pkF *packages.Package) {
 			c.Ob("EXT-TABLE-AGREES", fn+"/gz=zst", token.NoPos, reflect.DeepEqual(gz, zst), true, ".gz inner table %v equals .zst inner table %v", gz, zst)
 		}
 	}
+}
+
+// param of NewImageFile/newImageFile/newImageFileNoValidate -> ImageFile accessor carrying the same attribute
+var c11ParamAccessor = map[string]string{
+	"fileDescriptor":          "FileDescriptorProto",
+	"moduleFullName":          "FullName",
+	"commitID":                "CommitID",
+	"externalPath":            "ExternalPath",
+	"localPath":               "LocalPath",
+	"isImport":                "IsImport",
+	"isSyntaxUnspecified":     "IsSyntaxUnspecified",
+	"unusedDependencyIndexes": "UnusedDependencyIndexes",
+}
+
+// constants passed in a copy of an ImageFile, with the reason they are right
+var c11CopyConstAllowed = map[string]string{
+	"private/bufpkg/bufimage/bufimageutil.filterImageFile:unusedDependencyIndexes": "a filtered file's dependency list is rebuilt from the imports its remaining elements require (remapDependencies), so none is unused",
+}
+
+// c11ImageFileCopies (IMAGEFILE-COPY, added after seeded changes C11-a and C11-c).
+//   - accessor/parameter agreement: wherever an ImageFile constructor receives `x.Acc()` with Acc one of the eight
+//     attribute accessors, it is at the position of the parameter that carries that attribute;
+//   - copy completeness: a call that passes three or more accessors of one ImageFile x is a copy of x; each of its
+//     other attribute arguments is the matching accessor, a local derived from it, or a parameter of the enclosing
+//     function (the attribute the copy is for) — never a constant, unless reviewed;
+//   - the struct literal stores each parameter under the field of its name and each accessor returns that field;
+//   - per-file state: in NewImageForProto every variable handed to NewImageFile is declared inside the loop over
+//     the files (state declared outside is inherited by the next file that does not set it).
+func c11ImageFileCopies(c *Ctx) {
+	const rule = "IMAGEFILE-COPY"
+	c.Rule(rule, "ImageFile attributes travel under their own name through constructors, copies and accessors", 30)
+	p := c.P
+	pkImg := p.Pkg(pkgImage)
+	ctor := p.Func(pkgImage, "newImageFileNoValidate")
+	if pkImg == nil || ctor == nil {
+		c.Fail(rule, "anchor", token.NoPos, "bufimage.newImageFileNoValidate not found")
+		return
+	}
+	var pnames []string
+	for _, fl := range ctor.Decl.Type.Params.List {
+		for _, nm := range fl.Names {
+			pnames = append(pnames, nm.Name)
+		}
+	}
+	for _, n := range pnames {
+		if _, ok := c11ParamAccessor[n]; !ok {
+			c.Ob(rule, "param-table/"+n, ctor.Decl.Pos(), false, true, "constructor parameter %s has no accessor in the checker's table (a new attribute must be reviewed)", n)
+		}
+	}
+	// literal and accessors
+	info := pkImg.TypesInfo
+	if lit := findCompositeLit(info, ctor.Decl.Body, "imageFile"); lit == nil {
+		c.Fail(rule, "literal", ctor.Decl.Pos(), "imageFile literal not found")
+	} else {
+		for k, v := range litKeys(lit) {
+			want := k
+			if k == "fileDescriptorProto" {
+				want = "fileDescriptor"
+			}
+			o := identObj(info, v)
+			ok := o != nil && o.Name() == want
+			if k == "fileDescriptorProto" {
+				ok = false
+				ast.Inspect(v, func(n ast.Node) bool {
+					if id, isID := n.(*ast.Ident); isID && id.Name == want {
+						ok = true
+					}
+					return true
+				})
+			}
+			c.Ob(rule, "literal/"+k, v.Pos(), ok, true, "field %s of the imageFile literal is set from parameter %s: %v (%s)", k, want, ok, short(exprString(v), 50))
+		}
+	}
+	for pname, acc := range c11ParamAccessor {
+		fr := p.Func(pkgImage, "imageFile."+acc)
+		if fr == nil {
+			c.Fail(rule, "accessor/"+acc, token.NoPos, "method imageFile.%s not found", acc)
+			continue
+		}
+		field := pname
+		if pname == "fileDescriptor" {
+			field = "fileDescriptorProto"
+		}
+		ok := false
+		ast.Inspect(fr.Decl.Body, func(n ast.Node) bool {
+			if r, isRet := n.(*ast.ReturnStmt); isRet && len(r.Results) == 1 {
+				ast.Inspect(r.Results[0], func(m ast.Node) bool {
+					if sel, isSel := m.(*ast.SelectorExpr); isSel && sel.Sel.Name == field {
+						ok = true
+					}
+					return true
+				})
+			}
+			return true
+		})
+		c.Ob(rule, "accessor/"+acc, fr.Decl.Pos(), ok, true, "imageFile.%s returns field %s: %v", acc, field, ok)
+	}
+	// call sites
+	isCtor := func(fn *types.Func) bool {
+		if fn == nil || fn.Pkg() == nil || fn.Pkg().Path() != modPath+"/"+pkgImage {
+			return false
+		}
+		switch fn.Name() {
+		case "NewImageFile", "newImageFile", "newImageFileNoValidate":
+			return true
+		}
+		return false
+	}
+	accessorSet := map[string]bool{}
+	for _, a := range c11ParamAccessor {
+		accessorSet[a] = true
+	}
+	nSites := 0
+	for _, pk := range p.ModulePkgs() {
+		info := pk.TypesInfo
+		for _, fr := range p.FuncsOf(pk) {
+			if fr.Decl.Body == nil {
+				continue
+			}
+			fr := fr
+			ast.Inspect(fr.Decl.Body, func(n ast.Node) bool {
+				call, ok := n.(*ast.CallExpr)
+				if !ok || !isCtor(Callee(info, call)) || len(call.Args) != len(pnames) {
+					return true
+				}
+				nSites++
+				c.CallSites++
+				// accessors per receiver
+				perRecv := map[types.Object]int{}
+				for i, a := range call.Args {
+					ac, isCall := ast.Unparen(a).(*ast.CallExpr)
+					if !isCall || len(ac.Args) != 0 {
+						continue
+					}
+					sel, isSel := ac.Fun.(*ast.SelectorExpr)
+					if !isSel || !accessorSet[sel.Sel.Name] || namedName(info.TypeOf(sel.X)) != "ImageFile" {
+						continue
+					}
+					want := c11ParamAccessor[pnames[i]]
+					c.Ob(rule, fr.ID()+"/arg "+pnames[i], a.Pos(), sel.Sel.Name == want, true, "%s() is passed as %s (want %s())", sel.Sel.Name, pnames[i], want)
+					if o := identObj(info, sel.X); o != nil {
+						perRecv[o]++
+					}
+				}
+				var src types.Object
+				for o, n := range perRecv {
+					if n >= 3 {
+						src = o
+					}
+				}
+				if src == nil {
+					return true
+				}
+				// a copy of src
+				for i, a := range call.Args {
+					if i == 0 {
+						continue // the descriptor is what copies replace
+					}
+					a = ast.Unparen(a)
+					verdict, ok := "", false
+					switch {
+					case isAccessorOf(info, a, src, c11ParamAccessor[pnames[i]]):
+						verdict, ok = "the matching accessor", true
+					case identObj(info, a) != nil && isParamObj(info, fr.Decl, identObj(info, a)):
+						verdict, ok = "a parameter of the copying function (the attribute the copy is for)", true
+					case identObj(info, a) != nil && localDerivedFromAccessor(info, fr.Decl.Body, identObj(info, a), src, c11ParamAccessor[pnames[i]]):
+						verdict, ok = "a local derived from the matching accessor", true
+					default:
+						key := fr.ID() + ":" + pnames[i]
+						if why, allowed := c11CopyConstAllowed[key]; allowed {
+							verdict, ok = "reviewed: "+why, true
+						} else {
+							verdict = "neither the source's " + c11ParamAccessor[pnames[i]] + "() nor a parameter: " + exprString(a)
+						}
+					}
+					c.Ob(rule, fr.ID()+"/copy "+pnames[i], a.Pos(), ok, true, "copy of %s: attribute %s is %s", src.Name(), pnames[i], verdict)
+				}
+				return true
+			})
+		}
+	}
+	c.Ob(rule, "call-sites", token.NoPos, nSites >= 8, true, "%d ImageFile constructor call sites analysed", nSites)
+
+	// per-file state in NewImageForProto
+	if in := p.Func(pkgImage, "NewImageForProto"); in != nil {
+		info := pkImg.TypesInfo
+		ast.Inspect(in.Decl.Body, func(n ast.Node) bool {
+			rs, ok := n.(*ast.RangeStmt)
+			if !ok {
+				return true
+			}
+			ast.Inspect(rs.Body, func(m ast.Node) bool {
+				call, ok := m.(*ast.CallExpr)
+				if !ok || !isCtor(Callee(info, call)) {
+					return true
+				}
+				for i, a := range call.Args {
+					o := identObj(info, a)
+					if o == nil {
+						continue
+					}
+					if _, isVar := o.(*types.Var); !isVar || o.Pkg() == nil {
+						continue
+					}
+					inside := o.Pos() >= rs.Pos() && o.Pos() <= rs.End()
+					c.Ob(rule, "NewImageForProto/per-file "+pnames[i], a.Pos(), inside, true, "variable %s handed to NewImageFile is declared inside the loop over the files (fresh for every file): %v", o.Name(), inside)
+				}
+				return true
+			})
+			return true
+		})
+	}
+}
+
+func isAccessorOf(info *types.Info, e ast.Expr, recv types.Object, acc string) bool {
+	call, ok := ast.Unparen(e).(*ast.CallExpr)
+	if !ok || len(call.Args) != 0 {
+		return false
+	}
+	sel, ok := call.Fun.(*ast.SelectorExpr)
+	return ok && sel.Sel.Name == acc && identObj(info, sel.X) == recv
+}
+
+func isParamObj(info *types.Info, fd *ast.FuncDecl, o types.Object) bool {
+	v, ok := o.(*types.Var)
+	return ok && isParamOf(info, fd, v)
+}
+
+// localDerivedFromAccessor: some assignment to v has a right-hand side mentioning recv.acc(), directly or through
+// one more local (x := recv.acc(); v := make(..., len(x)); copy(v, x)).
+func localDerivedFromAccessor(info *types.Info, body ast.Node, v, recv types.Object, acc string) bool {
+	mentions := func(e ast.Node) bool {
+		hit := false
+		ast.Inspect(e, func(n ast.Node) bool {
+			if ex, ok := n.(ast.Expr); ok && isAccessorOf(info, ex, recv, acc) {
+				hit = true
+			}
+			return true
+		})
+		return hit
+	}
+	hit := false
+	var locals []types.Object
+	ast.Inspect(body, func(n ast.Node) bool {
+		if as, ok := n.(*ast.AssignStmt); ok {
+			for i, l := range as.Lhs {
+				if i < len(as.Rhs) && mentions(as.Rhs[i]) {
+					if identObj(info, l) == v {
+						hit = true
+					} else if o := identObj(info, l); o != nil {
+						locals = append(locals, o)
+					}
+				}
+			}
+		}
+		return true
+	})
+	if hit {
+		return true
+	}
+	for _, lo := range locals {
+		ast.Inspect(body, func(n ast.Node) bool {
+			switch x := n.(type) {
+			case *ast.AssignStmt:
+				for i, l := range x.Lhs {
+					if identObj(info, l) == v && i < len(x.Rhs) && usesObj(info, x.Rhs[i], lo) {
+						hit = true
+					}
+				}
+			case *ast.CallExpr:
+				// copy(v, x)
+				if id, ok := x.Fun.(*ast.Ident); ok && id.Name == "copy" && len(x.Args) == 2 && identObj(info, x.Args[0]) == v && identObj(info, x.Args[1]) == lo {
+					hit = true
+				}
+			}
+			return true
+		})
+	}
+	return hit
 }
